@@ -135,6 +135,14 @@ def run(ctx):
             ok = bool(rel) or bool(calls)
             c.ob("R3", ok, st, f"releases:{attr}", f"stop() releases {what} ({attr})" if ok else
                  f"stop() never releases '{attr}' ({what}): they outlive the interpreter", st.node)
+        # containers of threading.Event flags: forgetting a flag is not releasing it - the waiting thread must be signalled
+        if v == "SyncInterpreter":
+            for attr in ("_after_events", "_pending_send_cancels"):
+                sets = [x for x in own_nodes(st.node) if isinstance(x, ast.Call) and isinstance(x.func, ast.Attribute) and x.func.attr == "set"
+                        and any(isinstance(l, ast.For) and attr in norm(l.iter) for l in _loops(st, x))]
+                c.ob("R3", bool(sets), st, f"signals:{attr}", f"stop() sets every cancel flag held in {attr}" if sets else
+                     f"stop() drops the cancel flags in '{attr}' without setting them: the waiting timer / delayed-send threads sleep out their delay "
+                     f"and then deliver after stop() returned", st.node)
         # every actor is stopped, not merely forgotten
         stops = [x for x in own_nodes(st.node) if isinstance(x, ast.Call) and isinstance(x.func, ast.Attribute) and x.func.attr == "stop"
                  and dotted(x.func.value) in ("actor", "child")]
@@ -171,3 +179,8 @@ def run(ctx):
         eff = [nd for nd in eff if not (isinstance(nd.ast, ast.Expr))]
         c.ob("R4", not eff, st, "stop-idempotent", "stop() on a stopped interpreter returns before any effect" if not eff else
              f"stop() on a stopped interpreter still executes '{stmt_text(eff[0].ast)}'", st.node)
+
+
+def _loops(f, node):
+    from sa.util import enclosing_loops
+    return enclosing_loops(f, node)
